@@ -445,9 +445,11 @@ func (h *H) fixed() {
 		ann := "capabilityOsc" + strings.TrimSuffix(o[:2], ";")
 		h.streamCase("fixed-F11-s"+o[:2], all, 0, []report{{enc: "reply " + nm + " " + ann}, {enc: "reply " + nm + " " + ann}, {enc: "reply " + nm + " " + ann}}, true, strings.Repeat("\x1b]"+o+"\x1b\\", 3))
 	}
-	// F12 (direct approximation): request flag set, requester gone
+	// F12 (direct approximation): request flag set, requester gone — the answer is parked in the
+	// buffered channel, a second one is dropped, the next drain finds the first
 	h.directCase("fixed-F12-d", 0, []dop{{kind: "stub", arg: "0"}, {kind: "setreq", arg: "1"}, {kind: "seq", seq: csi("", 'R', p(3), p(7))}, {kind: "seq", seq: csi("", 'R', p(3), p(7))},
-		{kind: "setreq", arg: "1"}, {kind: "seq", seq: csi("", 'R', p(3))}})
+		{kind: "setreq", arg: "1"}, {kind: "seq", seq: csi("", 'R', p(4), p(8))}, {kind: "drain"},
+		{kind: "setreq", arg: "1"}, {kind: "seq", seq: csi("", 'R', p(3))}, {kind: "setreq", arg: "1"}, {kind: "seq", seq: csi("", 'R', p(5), p(9))}, {kind: "drain"}})
 	// paste marks
 	if k, ok := keyReport("a"); ok {
 		h.streamCase("fixed-paste", 0, 0, []report{{enc: "paste start"}, k, k, {enc: "paste end"}, k}, true, "\x1b[200~aa\x1b[201~a")
